@@ -105,3 +105,69 @@ def check_timer_start_sample(ctx: Ctx, rule: str = 'R10.5') -> None:
     ctx.ob(rule, '_timer: the start time (origin of the sharp grid, reference of the idle-only wait) is sampled on every path to the run and no '
            'suspension point (idle gate, sleep) lies between the sample and the run', not und and not susp and bool(samples), loc=f.loc(samples[0].stmt) if samples else f.loc(),
            construct=construct(f, 'atomic:start-sample->run'), detail='; '.join(f'suspends at L{n.lineno} `{n.label[:50]}`' for n in susp[:3]))
+
+
+# Loops that iterate a live view across a suspension point and are nevertheless safe, with the reason (confirmed by reading).
+ITER_EXEMPT = {
+    ('kopf._core.reactor.queueing._wait_for_depletion', 'streams.values()'):
+        'the only await in the body is put() on an unbounded queue, which does not suspend (premise R1.5)',
+    ('kopf._cogs.structs.credentials.Vault.close', 'self._current'):
+        'runs under self._guard, the lock every mutation of _current takes',
+    ('kopf._cogs.structs.credentials.Vault._flush_caches', 'item.caches.values()'):
+        'the item was already removed from the vault or the vault is closing under its guard; caches are written only at item creation',
+}
+
+
+def check_iteration_snapshots(ctx: Ctx, rule: str, modules: tuple = ()) -> None:
+    """No suspension point inside a loop that iterates a LIVE view of a container other tasks mutate: at the await another task runs
+    (a daemon's runner deletes its registry entry, a worker forgets a memory) and the iteration raises `dictionary changed size`.
+    Safe idioms: iterate a snapshot (list()/tuple()/sorted()/.copy()), a locally built collection, or a generator call."""
+    repo = ctx.repo
+    n_loops = 0
+    for f in repo.all_functions():
+        if not f.is_async or (modules and f.module.short not in modules):
+            continue
+        params = {a.arg for a in f.params()}
+        for lp in walk_no_defs(f.node):
+            if not isinstance(lp, ast.For):
+                continue
+            susp = [x for s in lp.body for x in walk_no_defs(s) if isinstance(x, (ast.Await, ast.AsyncWith, ast.AsyncFor))]
+            if not susp:
+                continue
+            it = lp.iter
+            view = it.func.value if (isinstance(it, ast.Call) and isinstance(it.func, ast.Attribute) and it.func.attr in ('values', 'items', 'keys') and not it.args) else \
+                it if isinstance(it, (ast.Name, ast.Attribute)) else None
+            if view is None:
+                continue            # a call: a snapshot constructor, a generator, range(), itertools...
+            root = (dotted(view) or '').split('.')[0]
+            shared = root in params or root == 'self'
+            if not shared:
+                # a local: shared only if it aliases something shared (bound from an attribute/parameter, not from a call/display)
+                from ..rules import origin
+                o = origin(f, ast.Name(id=root, ctx=ast.Load()))
+                shared = isinstance(o, (ast.Attribute, ast.Subscript)) or (isinstance(o, ast.Name) and o.id in params)
+            if not shared:
+                continue
+            n_loops += 1
+            key = (f.qualname, src(it, 60))
+            reason = ITER_EXEMPT.get(key)
+            if reason and 'put()' in reason:
+                # the premise of this exemption is checked, not assumed: every await in the body awaits a queue put()
+                only_put = all(isinstance(x, ast.Await) and isinstance(x.value, ast.Call) and isinstance(x.value.func, ast.Attribute)
+                               and x.value.func.attr == 'put' for x in susp)
+                if not only_put:
+                    reason = None
+            ctx.ob(rule, f'{f.short}: the loop over `{src(it, 50)}` (a live view of a shared container) has no suspension point in its body -- or iterates a '
+                   'snapshot' + (f' [exempt: {reason}]' if reason else ''), reason is not None, loc=f.loc(lp),
+                   construct=construct(f, f'atomic-iter:{src(it, 50)}'),
+                   detail='' if reason else f'awaits at L{susp[0].lineno} while iterating the live view: another task may add/remove entries there')
+    ctx.count('live_view_loops_with_awaits', n_loops)
+    # the daemon registries are mutated by the runners (del daemons[id]) and by forget(): every loop over them that awaits uses a snapshot
+    dk = repo.fn('daemons.daemon_killer')
+    ctx.analysed(dk)
+    loops = [lp for lp in walk_no_defs(dk.node) if isinstance(lp, ast.For) and ('running_daemons' in src(lp.iter) or 'iter_all_daemon_memories' in src(lp.iter))]
+    ctx.require_sites(rule, 'daemon_killer: loops over the daemon registries', len(loops), 4, dk.loc())
+    for lp in loops:
+        snap = isinstance(lp.iter, ast.Call) and dotted(lp.iter.func) in ('list', 'tuple', 'sorted')
+        ctx.ob(rule, f'daemon_killer: `{src(lp.iter, 60)}` is a snapshot (the stoppers it schedules make daemons remove themselves from the registry meanwhile)',
+               snap, loc=dk.loc(lp), construct=construct(dk, f'atomic-iter:{src(lp.iter, 60).replace("list(", "").rstrip(")")}'))
